@@ -50,6 +50,10 @@ CHECKS["C07"] = dict(level="model_checking", engine="tlc-trace",
    technique="each logged solution tree is evaluated by PipTrace.tla (floor-division artificial parameters, decision nodes) on every parameter valuation in 0..4 and compared with the brute-force lexicographic minimum",
    text="Seeded random parametric integer programs under all six strategy settings are solved fresh and after incremental modifications; the specification itself interprets the returned tree for each parameter valuation satisfying the context and requires a feasible, non-negative, lexicographically minimal integer point, or bottom exactly when none exists, and trees that only use declared artificial parameters. Every rejection carries a concrete integer witness.",
    note="Trusted: TLC, the tree logger harness/pip.cc. Bounds: <= 3 variables, <= 3 parameters, parameter values 0..4, search box 0..7, |coeff| <= 3. The big-parameter clause is not covered. Known findings: wrong bottom on fresh problems (one family), and the incremental re-solve path (all verdict kinds).", ref="§5 C07")
+CHECKS["C18"] = dict(level="model_checking", engine="tlc-trace",
+   technique="TLC enumerates every single-variable loop of a bounded family (and samples two-variable loops over polyhedra, BD shapes, octagons); TermTrace.tla judges every verdict, witness and space with the definition of a ranking function on the verified generators of the relation, and refutes `false' verdicts by brute force",
+   text="Loop relations generated by specs/term/TermHist.tla (model checking: all 1800 loops `while (g1 [and g2]) x' REL c*x+d` in the coefficient box; simulation: one- and two-variable loops as C/NNC polyhedra, rational BD shapes, octagons, with equalities, strict constraints, unbounded directions, empty relations) are run through all fourteen functions of the termination interface in both input forms. The specification verifies the relation's generators against its constraints with its own double description, then requires: returned functions and every generator-derived member of returned spaces are ranking functions (strict decrease on points, non-negative and non-increasing on rays, zero on lines), quasi-ranking spaces decrease / are bounded, test = witness = space-emptiness verdicts, MS = PR on closed relations, and no `false' when a ranking function with coefficients in -3..3 exists.",
+   note="Trusted: TLC, PolySem double description, harness/term.cc. Bounds: n <= 2, |coeff| <= 3; completeness refuted only by small ranking functions. Known finding: PR_2 incompleteness when `before' is not the projection of the relation.", ref="§5 C18")
 NOT_YET = {}
 
 
